@@ -37,7 +37,7 @@ func scaleCheck(seed uint64) {
 		x = x*6364136223846793005 + 1442695040888963407
 		return int((x >> 33) % uint64(n))
 	}
-	kind := next(4)
+	kind := next(5)
 	defer func() {
 		if r := recover(); r != nil {
 			if _, ok := r.(*Violation); ok {
@@ -55,8 +55,134 @@ func scaleCheck(seed uint64) {
 		scaleTables(seed, next, 1, 65530+next(700))
 	case 2:
 		scaleRows(seed, next)
-	default:
+	case 3:
 		scaleReset(seed, next)
+	default:
+		scaleRegistrations(seed, next)
+	}
+}
+
+// scaleRegistrations: a long registration history. A filter and an observer that were registered first stay registered
+// while throw-away ones are registered and unregistered more than 65536 times (IDs of registrations may or may not be
+// handed out again; either way every registered object must keep its own identity); then new ones are registered and
+// everything is compared with a model: counts of the registered filters against unregistered twins, which observers
+// fire, the figures in Stats, and that every Unregister of a registered object is accepted.
+func scaleRegistrations(seed uint64, next func(int) int) {
+	w := ecs.NewWorld(8)
+	ma := ecs.NewMap1[scaleA](w)
+	mb := ecs.NewMap1[scaleB](w)
+	nA, nB := 2+next(4), 1+next(4)
+	for i := 0; i < nA; i++ {
+		ma.NewEntity(&scaleA{V: int64(i)})
+	}
+	for i := 0; i < nB; i++ {
+		mb.NewEntity(&scaleB{V: int32(i)})
+	}
+	where := fmt.Sprintf("scale history seed %d (registrations)", seed)
+	count1 := func(f *ecs.Filter1[scaleA]) int {
+		q := f.Query()
+		n := q.Count()
+		v := 0
+		for q.Next() {
+			v++
+		}
+		if v != n {
+			fail("scale|count", "%s: Count %d, visited %d", where, n, v)
+		}
+		return n
+	}
+	countB := func(f *ecs.Filter1[scaleB]) int {
+		q := f.Query()
+		n := q.Count()
+		v := 0
+		for q.Next() {
+			v++
+		}
+		if v != n {
+			fail("scale|count", "%s: Count %d, visited %d", where, n, v)
+		}
+		return n
+	}
+	fa := ecs.NewFilter1[scaleA](w).Register()
+	twinA := ecs.NewFilter1[scaleA](w)
+	twinB := ecs.NewFilter1[scaleB](w)
+	firedA, firedTmp, firedX, firedY := 0, 0, 0, 0
+	obsA := ecs.Observe(ecs.OnCreateEntity).Do(func(ecs.Entity) { firedA++ })
+	obsA.Register(w)
+	cycles := 65500 + next(120)
+	doFilters, doObservers := next(3) != 0, next(3) != 0
+	if !doFilters && !doObservers {
+		doFilters = true
+	}
+	tmpF := ecs.NewFilter1[scaleB](w)
+	tmpO := ecs.Observe(ecs.OnRemoveEntity).Do(func(ecs.Entity) { firedTmp++ })
+	for i := 0; i < cycles; i++ {
+		if doFilters {
+			tmpF.Register()
+			tmpF.Unregister()
+		}
+		if doObservers {
+			tmpO.Register(w)
+			tmpO.Unregister(w)
+		}
+	}
+	// new registrations after the long history
+	var newB []*ecs.Filter1[scaleB]
+	var newX, newY []*ecs.Observer
+	k := 2 + next(90)
+	for i := 0; i < k; i++ {
+		newB = append(newB, ecs.NewFilter1[scaleB](w).Register())
+		x := ecs.Observe(ecs.OnRemoveEntity).Do(func(ecs.Entity) { firedX++ })
+		x.Register(w)
+		newX = append(newX, x)
+		y := ecs.Observe(ecs.OnCreateEntity).Do(func(ecs.Entity) { firedY++ })
+		y.Register(w)
+		newY = append(newY, y)
+		where = fmt.Sprintf("scale history seed %d (registrations: %d cycles, then %d new ones)", seed, cycles, i+1)
+		if got := count1(fa); got != nA || count1(twinA) != nA {
+			fail("scale|registered-filter", "%s: the filter registered first yields %d entities, its unregistered twin %d, model %d", where, got, count1(twinA), nA)
+		}
+		for j, f := range newB {
+			if got := countB(f); got != nB || countB(twinB) != nB {
+				fail("scale|registered-filter", "%s: new registered filter %d yields %d entities, the unregistered twin %d, model %d", where, j, got, countB(twinB), nB)
+			}
+		}
+		if st := w.Stats(); st.CachedFilters != 1+len(newB) || st.Observers != 1+len(newX)+len(newY) {
+			fail("scale|stats", "%s: Stats reports %d cached filters and %d observers, model %d and %d", where, st.CachedFilters, st.Observers, 1+len(newB), 1+len(newX)+len(newY))
+		}
+	}
+	e := ma.NewEntity(&scaleA{})
+	nA++
+	if firedA != 1 || firedY != len(newY) || firedX != 0 || firedTmp != 0 {
+		fail("scale|observers", "%s: after one creation the first observer fired %d times (1 expected), the %d new creation observers %d times, removal observers %d, unregistered throw-away observer %d", where, firedA, len(newY), firedY, firedX, firedTmp)
+	}
+	// the objects registered first are unregistered; everything else keeps working
+	obsA.Unregister(w)
+	fa.Unregister()
+	w.RemoveEntity(e)
+	nA--
+	ma.NewEntity(&scaleA{})
+	nA++
+	if firedA != 1 || firedY != 2*len(newY) || firedX != len(newX) || firedTmp != 0 {
+		fail("scale|observers", "%s: after unregistering the first observer: it fired %d times in total (1 expected), creation observers %d (expected %d), removal observers %d (expected %d), throw-away %d", where, firedA, firedY, 2*len(newY), firedX, len(newX), firedTmp)
+	}
+	if got := count1(fa); got != nA || count1(twinA) != nA {
+		fail("scale|registered-filter", "%s: the filter unregistered again yields %d entities, its twin %d, model %d", where, got, count1(twinA), nA)
+	}
+	for j, f := range newB {
+		if got := countB(f); got != nB {
+			fail("scale|registered-filter", "%s: new registered filter %d yields %d entities, model %d", where, j, got, nB)
+		}
+		f.Unregister()
+		newX[j].Unregister(w)
+		newY[j].Unregister(w)
+	}
+	if st := w.Stats(); st.CachedFilters != 0 || st.Observers != 0 {
+		fail("scale|stats", "%s: after unregistering everything Stats reports %d cached filters and %d observers", where, st.CachedFilters, st.Observers)
+	}
+	ma.NewEntity(&scaleA{})
+	if firedA != 1 || firedY != 2*len(newY) {
+		fail("scale|observers", "%s: unregistered observers fired (first %d, new %d)", where, firedA, firedY)
 	}
 }
 
